@@ -413,17 +413,60 @@ func (c *Check) scratchReset(rule string) {
 			if !ok {
 				continue
 			}
-			call, ok := st.Val.(*ssa.Call)
-			if !ok {
-				continue
-			}
-			bi, ok := call.Call.Value.(*ssa.Builtin)
-			if !ok || bi.Name() != "append" || !isLoadOfField(call.Call.Args[0], fa.X, fa.Field) {
-				continue
-			}
 			T, F := fieldOf(fa.X.Type(), fa.Field)
 			if !isMessageStruct(p, fa.X.Type()) {
 				continue // a helper object built for this serialization (e.g. the string table), not part of the profile
+			}
+			call, ok := st.Val.(*ssa.Call)
+			var bi *ssa.Builtin
+			if ok {
+				bi, ok = call.Call.Value.(*ssa.Builtin)
+			}
+			if !ok || bi.Name() != "append" || !isLoadOfField(call.Call.Args[0], fa.X, fa.Field) {
+				// the field assigned as a whole from a list built elsewhere: fine when that
+				// list does not start from the field's old contents
+				if _, isSlice := st.Val.Type().Underlying().(*types.Slice); isSlice && token.IsExported(F) == false {
+					if k, isConst := st.Val.(*ssa.Const); isConst && k.IsNil() {
+						continue // the reset itself
+					}
+					if _, isMake := st.Val.(*ssa.MakeSlice); isMake {
+						continue // the reset itself (filled by index afterwards)
+					}
+					extends := false
+					seenV := map[ssa.Value]bool{}
+					var origin func(v ssa.Value, d int)
+					origin = func(v ssa.Value, d int) {
+						if seenV[v] || d > 8 {
+							return
+						}
+						seenV[v] = true
+						switch x := v.(type) {
+						case *ssa.Phi:
+							for _, e := range x.Edges {
+								origin(e, d+1)
+							}
+						case *ssa.Slice:
+							origin(x.X, d+1)
+						case *ssa.Call:
+							if b2, ok := x.Call.Value.(*ssa.Builtin); ok && b2.Name() == "append" {
+								origin(x.Call.Args[0], d+1)
+							}
+						case *ssa.UnOp:
+							if isLoadOfField(x, fa.X, fa.Field) {
+								extends = true
+							}
+						}
+					}
+					origin(st.Val, 0)
+					n++
+					key := "reset:" + T + "." + F
+					if extends {
+						c.bad(rule, key, p.relFile(st.Pos()), T+"."+F+" is assigned a list that starts from its own old contents: serializing the same profile twice writes its contents twice")
+					} else {
+						c.ok(rule, key, p.relFile(st.Pos()), T+"."+F+" is rebuilt from scratch on every serialization", "the field is assigned a list built from nil/make in this call")
+					}
+				}
+				continue
 			}
 			n++
 			key := "reset:" + T + "." + F
@@ -804,8 +847,8 @@ func (c *Check) internSymmetry(encTargets map[string]map[string]bool) {
 				continue
 			}
 			T, X := fieldOf(fa.X.Type(), fa.Field)
-			if call, ok := st.Val.(*ssa.Call); ok && call.Call.StaticCallee() != nil && call.Call.StaticCallee().Name() == "addString" {
-				src := call.Call.Args[1]
+			if call, ok := st.Val.(*ssa.Call); ok && internStringArg(call) != nil {
+				src := internStringArg(call)
 				if ld, ok := src.(*ssa.UnOp); ok {
 					if sfa, ok := ld.X.(*ssa.FieldAddr); ok {
 						ST, S := fieldOf(sfa.X.Type(), sfa.Field)
@@ -858,15 +901,16 @@ func (c *Check) internSymmetry(encTargets map[string]map[string]bool) {
 				continue
 			}
 			ST, S := fieldOf(fa.X.Type(), fa.Field)
-			ex, ok := st.Val.(*ssa.Extract)
-			if !ok || ex.Index != 0 {
+			var call *ssa.Call
+			if ex, ok := st.Val.(*ssa.Extract); ok && ex.Index == 0 {
+				call, _ = ex.Tuple.(*ssa.Call)
+			} else {
+				call, _ = st.Val.(*ssa.Call)
+			}
+			if call == nil {
 				continue
 			}
-			call, ok := ex.Tuple.(*ssa.Call)
-			if !ok || call.Call.StaticCallee() == nil || call.Call.StaticCallee().Name() != "getString" {
-				continue
-			}
-			if xa, ok := call.Call.Args[1].(*ssa.FieldAddr); ok {
+			if xa, ok := resolveIndexArg(call).(*ssa.FieldAddr); ok {
 				T, X := fieldOf(xa.X.Type(), xa.Field)
 				postMap[T+"."+X] = ST + "." + S
 			}
@@ -931,8 +975,8 @@ func (c *Check) internSymmetry(encTargets map[string]map[string]bool) {
 		inPost := false
 		for _, b := range helperBlocks(post, 3) {
 			for _, ins := range b.Instrs {
-				if call, ok := ins.(*ssa.Call); ok && call.Call.StaticCallee() != nil && call.Call.StaticCallee().Name() == "getString" {
-					if xa, ok := call.Call.Args[1].(*ssa.FieldAddr); ok {
+				if call, ok := ins.(*ssa.Call); ok && resolveIndexArg(call) != nil {
+					if xa, ok := resolveIndexArg(call).(*ssa.FieldAddr); ok {
 						if T, F := fieldOf(xa.X.Type(), xa.Field); T == "profile.label" && F == lx {
 							inPost = true
 						}
@@ -1083,11 +1127,36 @@ func idSource(v ssa.Value, seen map[ssa.Value]bool) string {
 				return T + ".ID"
 			}
 		}
+	case *ssa.Call:
+		// a list of ids built by append: the ids appended
+		if bi, ok := x.Call.Value.(*ssa.Builtin); ok && bi.Name() == "append" && len(x.Call.Args) == 2 {
+			out := ""
+			for _, e := range variadicValues(x.Call.Args[1]) {
+				if e == nil {
+					return ""
+				}
+				s := idSource(e, seen)
+				if s == "" || (out != "" && s != out) {
+					return ""
+				}
+				out = s
+			}
+			if base := idSource(x.Call.Args[0], seen); base != "" && base != out {
+				return ""
+			}
+			return out
+		}
 	case *ssa.Phi:
 		out := ""
 		for _, e := range x.Edges {
-			if k, ok := e.(*ssa.Const); ok && k.Int64() == 0 {
+			if k, ok := e.(*ssa.Const); ok && (safeInt64(k) == 0 || k.IsNil()) {
 				continue
+			}
+			if _, isMake := e.(*ssa.MakeSlice); isMake {
+				continue
+			}
+			if seen[e] {
+				continue // loop-carried
 			}
 			s := idSource(e, seen)
 			if s == "" || (out != "" && s != out) {
@@ -1330,6 +1399,9 @@ func (c *Check) wireConstants() {
 		for _, b := range f.Blocks {
 			for _, ins := range b.Instrs {
 				if call, ok := ins.(*ssa.Call); ok {
+					if sc := call.Call.StaticCallee(); sc != nil && fnPkgPath(sc) == "encoding/binary" && strings.Contains(sc.Name(), "varint") {
+						out["stdlib"] = append(out["stdlib"], 1) // the standard base-128 codec
+					}
 					if bi, ok := call.Call.Value.(*ssa.Builtin); ok && bi.Name() == "min" {
 						for _, a := range call.Call.Args {
 							if k, ok := constInt(a); ok {
@@ -1364,11 +1436,11 @@ func (c *Check) wireConstants() {
 	if ef == nil || df == nil {
 		c.undecided("C01-R5", "varint", "", "encodeVarint/decodeVarint not found")
 	} else {
-		encOK := has(enc, ">=", 128) && has(enc, "|", 128) && has(enc, ">>", 7) || has(enc, "<", 128) && has(enc, "|", 128) && has(enc, ">>", 7)
+		encOK := has(enc, ">=", 128) && has(enc, "|", 128) && has(enc, ">>", 7) || has(enc, "<", 128) && has(enc, "|", 128) && has(enc, ">>", 7) || has(enc, "stdlib", 1)
 		// the group limit may be written as a bail-out (i >= 10) or as a loop bound (i < 10)
 		// (i < 10), or as a cap on the bytes looked at (min(len(data), 10), if n > 10 { n = 10 })
 		limit := has(dec, ">=", 10) || has(dec, "<", 10) || has(dec, ">", 9) || has(dec, "<=", 9) || has(dec, "==", 10) || has(dec, ">", 10) || has(dec, "min", 10)
-		decOK := has(dec, "&", 127) && has(dec, "&", 128) && (has(dec, "*", 7) || has(dec, "+", 7)) && limit
+		decOK := has(dec, "&", 127) && has(dec, "&", 128) && (has(dec, "*", 7) || has(dec, "+", 7)) && limit || has(dec, "stdlib", 1)
 		if encOK {
 			c.ok("C01-R5", "varint:encode", p.relFile(ef.Pos()), "encodeVarint emits 7-bit groups with continuation bit 0x80", "constants: threshold 128, |0x80, >>7")
 		} else {
@@ -1444,4 +1516,57 @@ func isMessageStruct(p *Program, t types.Type) bool {
 		return false
 	}
 	return methodOf(p, named, "encode") != nil
+}
+
+// internStringArg: call is a call of the string interner of package profile - a function
+// (or method of an interner object) that takes one string among its parameters and returns
+// one integer, the index - and the result is the string argument; else nil.
+func internStringArg(call *ssa.Call) ssa.Value {
+	callee := call.Call.StaticCallee()
+	if callee == nil || fnPkgPath(callee) != modPath+"/profile" || callee.Signature.Results().Len() != 1 {
+		return nil
+	}
+	if bt, ok := callee.Signature.Results().At(0).Type().Underlying().(*types.Basic); !ok || bt.Info()&types.IsInteger == 0 {
+		return nil
+	}
+	var arg ssa.Value
+	n := 0
+	for i, pr := range callee.Params {
+		if bt, ok := pr.Type().Underlying().(*types.Basic); ok && bt.Kind() == types.String && i < len(call.Call.Args) {
+			arg = call.Call.Args[i]
+			n++
+		}
+	}
+	if n != 1 {
+		return nil
+	}
+	return arg
+}
+
+// resolveIndexArg: call is a call of the string resolver of package profile - a function (or
+// method of a resolver object) that takes the address of an integer index among its
+// parameters and returns the string as its first result - and the result is that address
+// argument; else nil.
+func resolveIndexArg(call *ssa.Call) ssa.Value {
+	callee := call.Call.StaticCallee()
+	if callee == nil || fnPkgPath(callee) != modPath+"/profile" || callee.Signature.Results().Len() < 1 {
+		return nil
+	}
+	if bt, ok := callee.Signature.Results().At(0).Type().Underlying().(*types.Basic); !ok || bt.Kind() != types.String {
+		return nil
+	}
+	var arg ssa.Value
+	n := 0
+	for i, pr := range callee.Params {
+		if pt, ok := pr.Type().Underlying().(*types.Pointer); ok && i < len(call.Call.Args) {
+			if bt, ok := pt.Elem().Underlying().(*types.Basic); ok && bt.Info()&types.IsInteger != 0 {
+				arg = call.Call.Args[i]
+				n++
+			}
+		}
+	}
+	if n != 1 {
+		return nil
+	}
+	return arg
 }
